@@ -207,10 +207,10 @@ def run_check(prop_id, *, gen_cases, check_case, describe, required_hits=(),
               ", ".join(f"{k}={v:.3g}" for k, v in sorted(total.worst.items())))
     if total.skipped:
         print(f"[{prop_id}] unconstrained (skipped by design): " +
-              ", ".join(f"{k}={v}" for k, v in sorted(total.skipped.items())))
+              ", ".join(f"{k}={v}" for k, v in sorted(total.skipped.items(), key=lambda kv: str(kv[0]))))
     if total.hits:
         print(f"[{prop_id}] shortcut hits: " +
-              ", ".join(f"{k}={v}" for k, v in sorted(total.hits.items())))
+              ", ".join(f"{k}={v}" for k, v in sorted(total.hits.items(), key=lambda kv: str(kv[0]))))
 
     for s in known_hit:
         print(f"KNOWN-FINDING: property={prop_id} {known[s].get('what', s)} [site={s}; "
@@ -248,8 +248,8 @@ def run_check(prop_id, *, gen_cases, check_case, describe, required_hits=(),
             "evaluations": total.traces,
             "distinct_nontrivial": len(total.states),
             "distinct_outcomes": len(total.outcomes),
-            "skipped_unconstrained": dict(total.skipped),
-            "shortcut_hits": dict(total.hits),
+            "skipped_unconstrained": {str(k): v for k, v in total.skipped.items()},
+            "shortcut_hits": {str(k): v for k, v in total.hits.items()},
             "worst_observed_over_budget": {k: round(v, 6) for k, v in total.worst.items()},
             "violations_total": total.n_violations,
             "violation_sites_new": new_sites[:50],
